@@ -67,6 +67,7 @@ type c13Expect struct {
 	errOK    bool       // a suppressible error is admissible (result does not fit int64)
 	exact    []*big.Rat // admissible exact values (integer results)
 	floats   []float64  // admissible double results
+	wantInt  bool       // the result must be delivered as an integer (int64), not as an equal double
 	describe string
 }
 
@@ -127,6 +128,7 @@ func c13Binary(op string, a, b any) c13Expect {
 		if Z.IsInt64() {
 			exp.exact = append(exp.exact, new(big.Rat).SetInt(Z))
 			exp.describe = "integer result " + Z.String()
+			exp.wantInt = op != "/"
 			return exp
 		}
 		f, fin := ieee()
@@ -192,6 +194,12 @@ func (e c13Expect) admits(o Out) (bool, string) {
 	rr, _ := exactRat(r)
 	for _, x := range e.exact {
 		if rr.Cmp(x) == 0 {
+			if f, isF := r.(float64); isF && f == 0 && math.Signbit(f) {
+				return false, "negative-zero-for-an-integer-result" // the exact integer result is 0, which has no sign
+			}
+			if _, isF := r.(float64); isF && e.wantInt {
+				return false, "integer-result-delivered-as-a-double" // it prints and serialises differently beyond 2^53
+			}
 			return true, ""
 		}
 	}
